@@ -21,6 +21,9 @@ def run(ck):
     quick = ck.tier == "quick"
     n = 500 if quick else 8000
     cases = jgen.inherit_cases(ck.seed * 104729 + 4, n)
+    # statements that write output outside of blocks in child templates (include, call and filter blocks,
+    # blocks nested in for / with / autoescape), blocks inside autoescape blocks
+    cases += jgen.inherit_cases(ck.seed * 104729 + 5, 300 if quick else 5000, start_id=len(cases) + 1, rich=True)
     for bi, batch in enumerate(core.chunks(cases, 2500)):
         obs, r = jrun.spec_results("C04", batch, name=f"b{bi}", timeout=3000)
         ck.add_tlc(r, f"Jinja.tla inheritance batch {bi} ({len(batch)} hierarchies)")
